@@ -517,3 +517,184 @@ func c06CommentTerminator(ctx *core.Ctx, r *core.Report) {
 		}
 	}
 }
+
+// c09PresenceLooksThroughNestedChoice: nodeutil.Node decides which case of a
+// choice is active by asking for each member of each case whether it exists. A
+// member that is itself a choice exists when one of ITS cases has data: exists()
+// has a branch for choices that asks Choose and looks into the chosen case.
+// Without it a case that is recognisable only through data under a nested choice
+// is never detected — the old case is not cleared and its nodes are not exported.
+func c09PresenceLooksThroughNestedChoice(ctx *core.Ctx, r *core.Report) {
+	f := ctx.Method("nodeutil", "Node", "exists")
+	if f == nil {
+		r.Fatalf("anchor nodeutil.Node.exists not found")
+		return
+	}
+	choiceBranch := false
+	for _, c := range core.CallSites(f) {
+		name := ""
+		if cal := core.StaticCallee(c); cal != nil {
+			name = cal.Name()
+		} else if m := core.IfaceMethod(c); m != nil {
+			name = m.Name()
+		}
+		if name != "Choose" && name != "DoChoose" {
+			continue
+		}
+		// under a test that the member is a choice
+		for _, pc := range core.PathConds(c.Block()) {
+			if call, ok := pc.V.(*ssa.Call); ok && pc.True {
+				if cal := core.StaticCallee(call); cal != nil && core.FnName(cal) == "meta.IsChoice" {
+					choiceBranch = true
+				}
+			}
+			if ex, ok := pc.V.(*ssa.Extract); ok && pc.True {
+				if ta, ok := ex.Tuple.(*ssa.TypeAssert); ok && strings.HasSuffix(core.TypeName(ta.AssertedType), "meta.Choice") {
+					choiceBranch = true
+				}
+			}
+		}
+	}
+	recursive := len(callsStatic(f, f, false)) > 0
+	r.Ob("presence-looks-through-nested-choice", "nodeutil.Node.exists", ctx.Pos(f.Pos()), choiceBranch && recursive,
+		"the presence test of nodeutil.Node has no branch for a case member that is itself a choice (ask Choose, then look into the chosen case): a case whose only data sits under a nested choice is not recognised as active")
+}
+
+// c09ClearClears: Selection.ClearField — what the editor uses to empty the leaves
+// of the case that is being left — sends a write marked Clear with no value. A
+// value (the schema default, say) written instead keeps the old case populated,
+// and the next read reports the old case next to the new one.
+func c09ClearClears(ctx *core.Ctx, r *core.Report) {
+	f := ctx.Method("node", "Selection", "ClearField")
+	set := ctx.Method("node", "Selection", "set")
+	if f == nil || set == nil {
+		r.Fatalf("anchors node.Selection.ClearField / set not found")
+		return
+	}
+	clearTrue, clearOther, valStored := 0, 0, 0
+	core.Instrs(f, func(_ *ssa.BasicBlock, in ssa.Instruction) {
+		st, ok := in.(*ssa.Store)
+		if !ok {
+			return
+		}
+		fa, ok := st.Addr.(*ssa.FieldAddr)
+		if !ok {
+			return
+		}
+		sts, ok := core.Deref(fa.X.Type()).Underlying().(*types.Struct)
+		if !ok {
+			return
+		}
+		switch sts.Field(fa.Field).Name() {
+		case "Clear":
+			if c, isC := st.Val.(*ssa.Const); isC && c.Value != nil && c.Value.String() == "true" {
+				clearTrue++
+			} else {
+				clearOther++
+			}
+		case "Val":
+			if n := core.NamedOf(fa.X.Type()); n != nil && n.Obj().Name() == "ValueHandle" {
+				valStored++
+			}
+		}
+	})
+	ok := clearTrue == 1 && clearOther == 0 && valStored == 0 && len(callsStatic(f, set, false)) == 1
+	r.Ob("clear-clears", "node.Selection.ClearField", ctx.Pos(f.Pos()), ok,
+		fmt.Sprintf("ClearField must send exactly one write with Clear=true and an empty value handle (Clear=true stores: %d, other Clear stores: %d, values put into the handle: %d): anything else leaves data in the leaf being cleared — a leaf of the case being left keeps a value and both cases hold data", clearTrue, clearOther, valStored))
+}
+
+// c04FoundMemberIsReported: the JSON reader reports a container or list as
+// present whenever the document has a member of that name: on the found side of
+// the member lookup its Child callback returns a node, or an error about the
+// member's shape — never (nil, nil), which means "not there". (An object without
+// members is an existing, empty container: `"c":{}` written by the writer must
+// read back as c present.)
+func c04FoundMemberIsReported(ctx *core.Ctx, r *core.Report) {
+	jr := ctx.Fn("nodeutil", "JsonContainerReader")
+	get := ctx.Fn("nodeutil", "fqkGet")
+	if jr == nil || get == nil {
+		r.Fatalf("anchors nodeutil.JsonContainerReader / fqkGet not found")
+		return
+	}
+	n := 0
+	for _, clo := range jr.AnonFuncs {
+		res := clo.Signature.Results()
+		if res.Len() != 2 || !core.IsErrorType(res.At(1).Type()) {
+			continue
+		}
+		if nn := core.NamedOf(res.At(0).Type()); nn == nil || nn.Obj().Name() != "Node" {
+			continue
+		}
+		if clo.Signature.Params().Len() != 1 || !strings.HasSuffix(core.TypeName(clo.Signature.Params().At(0).Type()), "ChildRequest") {
+			continue
+		}
+		gets := callsStatic(clo, get, false)
+		if len(gets) == 0 {
+			continue
+		}
+		for _, ret := range core.Returns(clo) {
+			found := false
+			for _, pc := range core.PathConds(ret.Block()) {
+				if ex, ok := pc.V.(*ssa.Extract); ok && pc.True && ex.Index == 1 {
+					if ex.Tuple == gets[0].Value() {
+						found = true
+					}
+				}
+			}
+			if !found {
+				continue
+			}
+			n++
+			ops := core.RetOperands(ret)
+			// named results: look at the values flowing into them
+			nothing := true
+			for _, leaf := range core.PhiLeaves(ops[0], ret.Block()) {
+				if !core.IsNilConst(leaf.V) {
+					nothing = false
+				}
+			}
+			failing := !mayBeSuccess(ret)
+			r.Ob("found-member-is-reported", fmt.Sprintf("nodeutil.JsonContainerReader/Child/return#%d", n), ctx.Pos(ret.Pos()), !nothing || failing,
+				"the document has a member for this container or list, yet the reader answers (nil, nil) — not there: an existing container with nothing set inside (`\"c\":{}`) is lost on the way in, and exporting again gives another tree")
+		}
+	}
+	r.Floor("found-member-is-reported", n, 3)
+}
+
+// c05ListElementsIndividually: a leaf-list value is a list of values of the
+// type; the range restriction is asked about each element, never about the list
+// as one value (Range.CheckValue on a list answers for "all elements on the same
+// side of every bound" — it rejects [3 5] for 1..5 and cannot accept [1 10] for
+// 1..5|10). In fieldConstraints.checkRange every Range.CheckValue is on the
+// not-a-list side of Format().IsList(), and the list side walks the elements.
+func c05ListElementsIndividually(ctx *core.Ctx, r *core.Report) {
+	f := ctx.Method("node", "fieldConstraints", "checkRange")
+	cv := ctx.Method("meta", "Range", "CheckValue")
+	if f == nil || cv == nil {
+		r.Fatalf("anchors node.fieldConstraints.checkRange / meta.Range.CheckValue not found")
+		return
+	}
+	n := 0
+	for _, c := range callsStatic(f, cv, false) {
+		n++
+		scalar := false
+		for _, pc := range core.PathConds(c.Block()) {
+			if call, ok := pc.V.(*ssa.Call); ok && !pc.True {
+				if cal := core.StaticCallee(call); cal != nil && cal.Name() == "IsList" {
+					scalar = true
+				}
+			}
+		}
+		r.Ob("list-elements-individually", fmt.Sprintf("node.fieldConstraints.checkRange/CheckValue#%d", n), ctx.Pos(c.Pos()), scalar,
+			"the range is asked about the value as a whole without the test that it is not a list: for a leaf-list the elements are not checked one by one")
+	}
+	// the list side visits every element with the same check
+	walks := false
+	for _, clo := range f.AnonFuncs {
+		if len(callsStatic(clo, f, false)) > 0 {
+			walks = true
+		}
+	}
+	r.Ob("list-elements-individually", "node.fieldConstraints.checkRange/walks-elements", ctx.Pos(f.Pos()), walks && n > 0,
+		"checkRange no longer applies itself to each element of a list value")
+}
